@@ -15,12 +15,8 @@ import (
 // VerifC28SetSender replaces the frame sender so that forwarded frames can be observed.
 func (f *Flooder) VerifC28SetSender(s PeerSender) { f.sender = s }
 
-// VerifC29Cleanup runs the sleep-command cache cleanup exactly as cleanup() does.
-func (f *Flooder) VerifC29Cleanup(now time.Time) {
-	f.sleepCmdMu.Lock()
-	f.cleanupSleepCmdCache(now, f.cfg.SeenCacheTTL)
-	f.sleepCmdMu.Unlock()
-}
+// VerifC29Cleanup runs one pass of the flooder's periodic cache cleanup (the real cleanup()).
+func (f *Flooder) VerifC29Cleanup() { f.cleanup() }
 
 // VerifC29Age moves every recorded instant of the sleep-command machinery d into the past
 // (the cache entries' SeenAt and the pending wake's storage time): the harness's way of letting
